@@ -675,6 +675,8 @@ batch(uint64_t first, uint64_t count, const char * prefix, int maxreport)
 	errfd = memfd_create("verif-err", 0);
 	gettimeofday(&t0, NULL);
 	for (s = first; s < first + count; s++) {
+		if (T.viol + T.crash + T.hang > 1500)
+			break;		/* flooded: the verdict is clear, stop early */
 		sim_af_step = sim_af_k = -1;
 		sim_af_persist = 0;
 		run_one(NULL, s, 1, &o);
